@@ -15,8 +15,13 @@ Model of the failure-report side of `internal/target/queue/queue.go`:
 Addresses are `Nat`s standing for the strings of the Go code through an injective naming
 `Cfg.name`; `0` stands for the empty string (null sender / missing map entry).
 Not modelled: the failure of `module.GenerateMsgID` (crypto/rand), the random message id, dates,
-logging.  `Queue.deliver` (who fails with which error) is the subject of C01; here the
-per-recipient errors of the attempt are an arbitrary function `now`.
+logging.  `attempt` takes the per-recipient errors of the attempt as an arbitrary function `now`;
+`deliverErrs` is the value-level mirror of `Queue.deliver` (which error VALUE each recipient ends
+up with: Start / RCPT / DATA or per-recipient LMTP status / Commit), its classes are those of
+C01's `Queue.deliver` (`Props/C18.lean: deliverErrs_cls`).
+`Rules`, `frontSteps`, `frontRcpts`, `viaFront`: `msgpipeline.AddRcpt` (three modifier stages,
+1-to-N rewriting, `OriginalRcpts[to] = originalTo`) of one pipeline or of two nested ones in front
+of the queue, and the fact that `Queue.Start` keeps the caller's `*MsgMetadata`.
 Core Lean only.
 -/
 namespace MaddyVerif.QueueDsn
@@ -180,5 +185,85 @@ def recordChain (m : Addr → Addr) : List Addr → (Addr → Addr)
   | [] => m
   | [_] => m
   | a :: b :: rest => recordChain (recordLevel m a b) (b :: rest)
+
+/-- One pipeline level handling several recipients: `(given, rewritten)` pairs, in order
+(`msgpipeline.AddRcpt`: `OriginalRcpts[rewritten] = given` when they differ). -/
+def recordAll (m : Addr → Addr) : List (Addr × Addr) → (Addr → Addr)
+  | [] => m
+  | p :: t => recordAll (recordLevel m p.1 p.2) t
+
+/-- The recipient rewriting of one pipeline: its global, per-source and per-recipient-block
+modifiers (`ModifierState.RewriteRcpt` returns a LIST: aliases expand 1-to-N); `none` = the
+modifier leaves the address alone. -/
+structure Rules where
+  g : Addr → Option (List Addr)
+  s : Addr → Option (List Addr)
+  r : Addr → Option (List Addr)
+
+def expand (f : Addr → Option (List Addr)) (a : Addr) : List Addr := (f a).getD [a]
+
+/-- The addresses `msgpipelineDelivery.AddRcpt(a)` hands to its target, in order: the three loops
+of the Go code. -/
+def Rules.outputs (ru : Rules) (a : Addr) : List Addr :=
+  ((expand ru.g a).flatMap (expand ru.s)).flatMap (expand ru.r)
+
+/-- …and what it records: `OriginalRcpts[to] = originalTo` for every output (when different). -/
+def Rules.pairs (ru : Rules) (a : Addr) : List (Addr × Addr) :=
+  (ru.outputs a).map (fun o => (a, o))
+
+/-- The recording steps, in the order the code performs them, when the sender's recipients
+`given` pass through `outer` and — with `reroute` — through a nested pipeline `inner` before they
+reach the queue: the outer level records its step, then calls the nested `AddRcpt`, which records
+its own steps. -/
+def frontSteps (outer : Rules) (inner : Option Rules) (given : List Addr) : List (Addr × Addr) :=
+  match inner with
+  | none => given.flatMap outer.pairs
+  | some inn => given.flatMap (fun a => (outer.outputs a).flatMap (fun b => (a, b) :: inn.pairs b))
+
+/-- The recipients the queue is given (`queueDelivery.AddRcpt`), in order. -/
+def frontRcpts (outer : Rules) (inner : Option Rules) (given : List Addr) : List Addr :=
+  match inner with
+  | none => given.flatMap outer.outputs
+  | some inn => given.flatMap (fun a => (outer.outputs a).flatMap inn.outputs)
+
+/-- The message as the queue holds it when the pipeline has committed.  `Queue.Start` stores the
+caller's `*module.MsgMetadata` (the pointer, `MsgMeta: msgMeta`) and the pipeline starts the queue
+delivery while it handles the FIRST recipient routed to it: the map `emitDSN` reads at attempt
+time is the map after ALL recipients were handled, not the map at `Start`. -/
+def viaFront (outer : Rules) (inner : Option Rules) (given : List Addr) (m : MsgMeta) : QMeta :=
+  ⟨frontRcpts outer inner given, fun _ => 0,
+   { m with origRcpts := recordAll (fun _ => 0) (frontSteps outer inner given) }⟩
+
+/-! ### which error value a recipient ends an attempt with (`Queue.deliver`) -/
+
+/-- What the downstream target answers in one attempt (`none` = success). -/
+structure APlan where
+  start  : Option Err            -- Target.Start
+  rcpt   : Addr → Option Err     -- Delivery.AddRcpt
+  body   : Option Err            -- Delivery.Body (atomic targets)
+  bodyRc : Addr → Option Err     -- StatusCollector.SetStatus (PartialDelivery.BodyNonAtomic)
+  commit : Option Err            -- Delivery.Commit
+
+/-- `perr.Errs` at the end of `Queue.deliver`: a `Start` error goes to everybody; a recipient
+refused at `AddRcpt` keeps ITS error; a `Body` / `Commit` error is spread over the ACCEPTED
+recipients only (`expandToPartialErr`), `Commit` is attempted only when some accepted recipient
+has no error after the body stage. -/
+def deliverErrs (k : Kind) (p : APlan) (to : List Addr) : Addr → Option Err :=
+  match p.start with
+  | some e => fun r => if r ∈ to then some e else none
+  | none =>
+    let accepted := to.filter (fun r => (p.rcpt r).isNone)
+    let e1 : Addr → Option Err := fun r => if r ∈ to then p.rcpt r else none
+    if accepted.isEmpty then e1 else
+    let e2 : Addr → Option Err := match k with
+      | .atomic =>
+        match p.body with
+        | some e => fun r => if r ∈ accepted then some e else e1 r
+        | none => e1
+      | .partialD => fun r => if r ∈ accepted ∧ (p.bodyRc r).isSome then p.bodyRc r else e1 r
+    if accepted.all (fun r => (e2 r).isSome) then e2 else
+    match p.commit with
+    | some e => fun r => if r ∈ accepted then some e else e2 r
+    | none => e2
 
 end MaddyVerif.QueueDsn
